@@ -1,3 +1,73 @@
 import PysphVerif.Driver.Common
-/-! Line-protocol driver for C05 (stub: not built yet). -/
-def main : IO Unit := PysphVerif.Driver.loopPure (fun _ => "bad-op")
+import PysphVerif.Model.Determinism
+/-!
+Line protocol for C05 (Float, bit patterns):
+
+  `loop doff=<nat> nd=<nat> x=<fl> y=<fl> m=<fl> parts=<il|il|…> sched=<il> nb=<L;L;…>`
+      the state is one row per particle (x, y, m from the three lists; acc = 0,
+      cnt = 0 as `initialize` leaves them); destinations are rows
+      `doff … doff+nd-1`; each `L` is one source loop: `nd` neighbour lists
+      (absolute row numbers) separated by `|`; `parts` hands the destinations
+      (numbered from 0) to threads, `sched` is the interleaving (thread ids).
+      The loops run one after the other under the same partition and schedule
+      (`Determinism.runLoop` with `foldPair 0.75`).
+      answers `acc=<fl> cnt=<il>` of the destination rows.
+  `sort ids=<il> keys=<il>`   answers `sortNbrs` of the ids by their keys.
+-/
+namespace PysphVerif.Driver.C05
+open PysphVerif.Wire PysphVerif.Determinism
+
+def parseLists (s : String) : Option (List (List Nat)) :=
+  (s.splitOn "|").mapM (parseList? parseNat?)
+
+def mkRows : List Float → List Float → List Float → List (Row Float)
+  | x :: xs, y :: ys, m :: ms => { x := x, y := y, m := m, acc := 0.0, cnt := 0 } :: mkRows xs ys ms
+  | _, _, _ => []
+
+def nbOf (doff : Nat) (lists : List (List Nat)) (i : Nat) : List Nat :=
+  if i < doff then [] else (lists[i - doff]?).getD []
+
+def runLoops (doff : Nat) (parts : List (List Nat)) (sched : List Nat)
+    (loops : List (List (List Nat))) (st : List (Row Float)) : List (Row Float) :=
+  loops.foldl (fun s lists => runLoop (foldPair (0.75 : Float)) (nbOf doff lists) parts sched s) st
+
+def handleLoop (kv : List (String × String)) : Option String := do
+  let doff ← (lookup kv "doff") >>= parseNat?
+  let nd ← (lookup kv "nd") >>= parseNat?
+  let x ← (lookup kv "x") >>= parseList? parseFloatBits?
+  let y ← (lookup kv "y") >>= parseList? parseFloatBits?
+  let m ← (lookup kv "m") >>= parseList? parseFloatBits?
+  let parts ← (lookup kv "parts") >>= parseLists
+  let sched ← (lookup kv "sched") >>= parseList? parseNat?
+  let nbs ← lookup kv "nb"
+  let loops ← (nbs.splitOn ";").mapM parseLists
+  if x.length ≠ y.length ∨ x.length ≠ m.length then none
+  else if loops.any (fun l => l.length ≠ nd) then none
+  else if doff + nd > x.length then none
+  else
+    let parts' := parts.map (fun p => p.map (· + doff))
+    let st := runLoops doff parts' sched loops (mkRows x y m)
+    let rows := (st.drop doff).take nd
+    pure ("acc=" ++ showList showFloatBits (rows.map (·.acc)) ++ " cnt=" ++
+      showList toString (rows.map (·.cnt)))
+
+def keyOf (tbl : List (Nat × Nat)) (j : Nat) : Nat :=
+  match tbl.find? (·.1 == j) with
+  | some p => p.2
+  | none => 0
+
+def handleSort (kv : List (String × String)) : Option String := do
+  let ids ← (lookup kv "ids") >>= parseList? parseNat?
+  let keys ← (lookup kv "keys") >>= parseList? parseNat?
+  if ids.length ≠ keys.length then none
+  else pure (showList toString (sortNbrs (keyOf (ids.zip keys)) ids))
+
+def handle (line : String) : String :=
+  match tokens line with
+  | "loop" :: rest => (handleLoop (kvs rest)).getD "bad-op"
+  | "sort" :: rest => (handleSort (kvs rest)).getD "bad-op"
+  | _ => "bad-op"
+
+end PysphVerif.Driver.C05
+
+def main : IO Unit := PysphVerif.Driver.loopPure PysphVerif.Driver.C05.handle
